@@ -66,8 +66,18 @@ static sexp_uint_t hash_one (sexp ctx, sexp obj, sexp_uint_t bound, sexp_sint_t 
         p0 = ((char*)obj) + offsetof(struct sexp_struct, value);
         /* if the field_base is 0, skip to the value */
         if ((sexp)p == obj) p=(sexp*)p0;
+#if SEXP_USE_BIGNUMS
+        /* equal bignums may differ in allocated length, so hash the */
+        /* sign and the significant words only */
+        if (sexp_bignump(obj)) {
+          acc *= FNV_PRIME; acc ^= (sexp_uint_t)(sexp_sint_t)sexp_bignum_sign(obj);
+          p_right = (char*)sexp_bignum_data(obj);
+          right_size = sexp_bignum_hi(obj)*sizeof(sexp_uint_t);
+          for (i=0; i<right_size; i++) {acc *= FNV_PRIME; acc ^= p_right[i];}
+        } else
+#endif
         /* hash uvector data (otherwise strings all hash to the same value) */
-        if (sexp_bytesp(obj) || sexp_uvectorp(obj) || sexp_bignump(obj)) {
+        if (sexp_bytesp(obj) || sexp_uvectorp(obj)) {
           p_right = ((char*)p + sexp_type_num_slots_of_object(t, obj)*sizeof(sexp));
           right_size = ((char*)obj + sexp_type_size_of_object(t, obj)) - p_right;
           for (i=0; i<right_size; i++) {acc *= FNV_PRIME; acc ^= p_right[i];}
